@@ -230,7 +230,7 @@ package hsrv
 
 // Do: the file one-liners show the listener's fingerprint.
 //@ func Server.Do(s, ctx) (err)
-//@   props C05 C20 C04
+//@   props C05 C20 C04 C12
 //@   nosafety
 //@   ghost added bool = false
 //@   ghost removed bool = false
@@ -238,6 +238,8 @@ package hsrv
 //@   on enter iobroker.Broker.AddEventListener(b, ch): assert(b == s.iob && ch == evCh && !added, "listens_on_its_own_channel"); added = true
 //@   on enter iobroker.Broker.RemoveEventListener(b, ch): assert(b == s.iob && ch == evCh && added && !closed, "stops_listening_before_closing_the_channel"); removed = true
 //@   on close evCh(): assert(removed && !closed, "channel_closed_only_after_the_broker_stopped_sending_to_it"); closed = true
+//@   on enter Server.watchIOBEvents(ss, c, ch): assert(ss == s && c == ectx && ch == evCh && added, "event_watcher_listens_on_the_registered_channel_and_ends_with_the_group")
+//@   on enter ctxerrgroup.Group.GoContext(g, c, f): assert(g == eg && c == ectx, "http_service_ends_with_the_group")
 //@   ensures listener_removed_and_channel_closed_on_every_exit: added && removed && closed
 //@   on enter Server.Printf(ss, c, f, v): if f == CurlFormat + FileSuffix { assert(boxes(v[0], s.l.Fingerprint), "file_one_liner_shows_listener_fingerprint") }
 
